@@ -215,20 +215,21 @@ def gen(ctx):
 # (firmware task, trxcon channel combination, timeslots, mode, lchan, SACCH lchan)
 
 def spec_rows():
+    """same rows, same order as c11_rows in Model/Mframe.v (run() compares the two through w_c11_row)"""
     R = []
     for cfg in ("GSM_PCHAN_CCCH", "GSM_PCHAN_CCCH_SDCCH4", "GSM_PCHAN_CCCH_SDCCH4_CBCH"):
         R.append(("MF_TASK_BCCH_NORM", cfg, "all", "block", "L1SCHED_BCCH", None))
     R.append(("MF_TASK_CCCH", "GSM_PCHAN_CCCH", "all", "block", "L1SCHED_CCCH", None))
     for cfg in ("GSM_PCHAN_CCCH_SDCCH4", "GSM_PCHAN_CCCH_SDCCH4_CBCH"):
         R.append(("MF_TASK_CCCH_COMB", cfg, "all", "block", "L1SCHED_CCCH", None))
-    for n in range(4):
-        R.append(("MF_TASK_SDCCH4_%d" % n, "GSM_PCHAN_CCCH_SDCCH4", "all", "block", "L1SCHED_SDCCH4_%d" % n, "L1SCHED_SACCH4_%d" % n))
-        if n != 2:
-            R.append(("MF_TASK_SDCCH4_%d" % n, "GSM_PCHAN_CCCH_SDCCH4_CBCH", "all", "block", "L1SCHED_SDCCH4_%d" % n, "L1SCHED_SACCH4_%d" % n))
-    for n in range(8):
-        R.append(("MF_TASK_SDCCH8_%d" % n, "GSM_PCHAN_SDCCH8_SACCH8C", "all", "block", "L1SCHED_SDCCH8_%d" % n, "L1SCHED_SACCH8_%d" % n))
-        if n != 2:
-            R.append(("MF_TASK_SDCCH8_%d" % n, "GSM_PCHAN_SDCCH8_SACCH8C_CBCH", "all", "block", "L1SCHED_SDCCH8_%d" % n, "L1SCHED_SACCH8_%d" % n))
+    for cfg, skip in (("GSM_PCHAN_CCCH_SDCCH4", ()), ("GSM_PCHAN_CCCH_SDCCH4_CBCH", (2,))):
+        for n in range(4):
+            if n not in skip:
+                R.append(("MF_TASK_SDCCH4_%d" % n, cfg, "all", "block", "L1SCHED_SDCCH4_%d" % n, "L1SCHED_SACCH4_%d" % n))
+    for cfg, skip in (("GSM_PCHAN_SDCCH8_SACCH8C", ()), ("GSM_PCHAN_SDCCH8_SACCH8C_CBCH", (2,))):
+        for n in range(8):
+            if n not in skip:
+                R.append(("MF_TASK_SDCCH8_%d" % n, cfg, "all", "block", "L1SCHED_SDCCH8_%d" % n, "L1SCHED_SACCH8_%d" % n))
     R.append(("MF_TASK_SDCCH4_CBCH", "GSM_PCHAN_CCCH_SDCCH4_CBCH", "all", "block", "L1SCHED_SDCCH4_CBCH", None))
     R.append(("MF_TASK_SDCCH8_CBCH", "GSM_PCHAN_SDCCH8_SACCH8C_CBCH", "all", "block", "L1SCHED_SDCCH8_CBCH", None))
     R.append(("MF_TASK_GPRS_PDTCH", "GSM_PCHAN_PDCH", "all", "block-dl", "L1SCHED_PDTCH", None))
@@ -247,12 +248,6 @@ def other_subchannel(lchan):
     return {"L1SCHED_TCHH_0": "L1SCHED_TCHH_1", "L1SCHED_TCHH_1": "L1SCHED_TCHH_0"}.get(lchan)
 
 
-def fw_calls_py(fw, task, cur):
-    """Python transcription of mframe_schedule_set (used ONLY by the oracle when the recorded real calls are not at hand,
-    i.e. never on the main path: the oracle runs on calls recorded from the real mframe_schedule())"""
-    raise NotImplementedError
-
-
 def real_fw_calls(bins, pairs):
     """run the real mframe_schedule(): pairs = [(mask, fn)] -> list of [(off, kind, p3)]"""
     inp = "".join("%d %d\n" % p for p in pairs)
@@ -265,3 +260,304 @@ def real_fw_calls(bins, pairs):
         w = [int(x) for x in l.split()]
         res.append([tuple(w[1 + 3 * i:4 + 3 * i]) for i in range(w[0])])
     return 0, "", res
+
+
+def real_trx(bins, mode, pairs):
+    inp = "".join("%d %d\n" % p for p in pairs)
+    rc, out, err = _run([bins["c11_trxcon_dump"], mode], inp, timeout=900)
+    lines = out.split("\n")
+    if rc != 0 or len(lines) < len(pairs):
+        return rc, err, None
+    return 0, "", [[int(x) for x in l.split()] for l in lines[:len(pairs)]]
+
+
+# ------------------------------------------------------------------ implementation-level oracle (on the dumped real tables / recorded real calls)
+
+def nbursts(E, c):
+    if c in (E["L1SCHED_FCCH"], E["L1SCHED_SCH"], E["L1SCHED_RACH"]):
+        return 1
+    if c in (E["L1SCHED_TCHH_0"], E["L1SCHED_TCHH_1"]):
+        return 2
+    return 4
+
+
+def real_lookup(tx, cfg, tn):
+    return tx["lookup"][cfg][tn] if 0 <= cfg < 128 and 0 <= tn < 8 else -1
+
+
+def oracle_tables(ctx, fw, tx):
+    """bids cyclic, lookup inside the table, mask covers, (config, tn) validity - directly on the dumped real tables"""
+    E = tx["enum"]
+    inv = {v: k for k, v in E.items()}
+    IDLE = E["L1SCHED_IDLE"]
+    NONE = tx["pchan"]["GSM_PCHAN_NONE"]
+    n = 0
+    for li, L in enumerate(tx["layouts"]):
+        if L["cfg"] == NONE:
+            continue
+        per, fr = L["period"], L["frames"]
+        if not (0 < per <= L["n"] and per < 256 and len(fr) == L["n"]):
+            ctx.oracle_fail("trxcon layout: fn %% period can leave the frames array (period %d, rows %d)" % (per, L["n"]),
+                            dict(layout=li, config=L["cfg"], period=per, rows=L["n"], fn=(L["n"] if per > L["n"] >= 0 else 0)),
+                            key="c11-lookup-leaves-table:layout%d" % li)
+            continue
+        for d, (ci, bi) in (("DL", (0, 1)), ("UL", (2, 3))):
+            for i in range(per):
+                c, b = fr[i][ci], fr[i][bi]
+                n += 1
+                if c != IDLE and not (0 <= c < tx["chanmax"] and c < 64 and (L["mask"] >> c) & 1):
+                    ctx.oracle_fail("trxcon layout: channel %s used by a frame is not in the layout's lchan mask" % inv.get(c, c),
+                                    dict(layout=li, config=L["cfg"], frame=i, dir=d, chan=inv.get(c, c), mask=hex(L["mask"])),
+                                    key="c11-mask:layout%d:%s" % (li, inv.get(c, c)))
+                if c == IDLE:
+                    continue
+                nb = nbursts(E, c)
+                k = next(k for k in range(1, per + 1) if fr[(i + k) % per][ci] == c)
+                b2 = fr[(i + k) % per][bi]
+                if not (0 <= b < nb and b2 == (b + 1) % nb):
+                    ctx.oracle_fail("trxcon layout: burst ids of %s not cyclic 0..%d" % (inv.get(c, c), nb - 1),
+                                    dict(layout=li, config=L["cfg"], dir=d, chan=inv.get(c, c), frame=i, bid=b, next_frame=(i + k) % per, next_bid=b2),
+                                    key="c11-bids:layout%d:%s:%s:frame%d" % (li, d, inv.get(c, c), i))
+        for fr_row in fr[per:]:
+            for c in (fr_row[0], fr_row[2]):
+                if c != IDLE and not (0 <= c < 64 and (L["mask"] >> c) & 1):
+                    ctx.oracle_fail("trxcon layout: channel in a row beyond the period not in mask", dict(layout=li, chan=c), key="c11-mask:layout%d:%s" % (li, inv.get(c, c)))
+    known = set(tx["pchan"].values())
+    for cfg in range(128):
+        for tn in range(8):
+            li = tx["lookup"][cfg][tn]
+            n += 1
+            if cfg in known:
+                ok = 0 <= li < len(tx["layouts"]) and tx["layouts"][li]["cfg"] == cfg and (tx["layouts"][li]["slotmask"] >> tn) & 1
+            else:
+                ok = li == -1
+            if not ok:
+                ctx.oracle_fail("l1sched_mframe_layout(config=%d, tn=%d) returns %s" % (cfg, tn, "NULL" if li == -1 else "layout %d" % li),
+                                dict(config=cfg, tn=tn, returned=li), key="c11-layout-for-tn:config%d:tn%d" % (cfg, tn))
+    return n
+
+
+def oracle_rows(ctx, fw, tx, fired, ncur):
+    """the property stated directly on the implementation's observations: frames in which the real mframe_schedule() called
+    tdma_schedule_set() (fired[(task, kind, sacch)] = set of current frames) against the rows of the real layouts[]"""
+    E, T, P = tx["enum"], fw["tasks"], tx["pchan"]
+    SACCH = fw["const"]["MF_F_SACCH"]
+    ahead = 2
+    n = 0
+    seen = {}
+    for ri, (task, cfg, tnrule, mode, lchan, sacch) in enumerate(spec_rows()):
+        t = T[task]
+        for tn in range(8):
+            if not tn_ok(tnrule, tn):
+                continue
+            li = real_lookup(tx, P[cfg], tn)
+            if li < 0:
+                ctx.oracle_fail("l1sched_mframe_layout(%s, %d) returns NULL for a mapped row" % (cfg, tn), dict(row=ri, task=task, config=cfg, tn=tn),
+                                key="c11-row-no-layout:%s:%s:tn%d" % (task, cfg, tn))
+                continue
+            if (ri, li) in seen:
+                continue
+            seen[(ri, li)] = tn
+            L = tx["layouts"][li]
+            per, fr = L["period"], L["frames"]
+            if per <= 0 or per > len(fr):
+                continue  # reported by oracle_tables
+
+            def first(col, c, bid0):
+                if c is None:
+                    return frozenset()
+                return frozenset(i for i in range(per) if fr[i][col] == E[c] and (not bid0 or fr[i][col + 1] == 0))
+            if mode == "tch":
+                oth = other_subchannel(lchan)
+                comps = [("TCH", 3, False, "DL", first(0, lchan, False)), ("TCH", 3, False, "UL", first(2, lchan, False)),
+                         ("TCH_A", 4, True, "DL", first(0, sacch, False)), ("TCH_A", 4, True, "UL", first(2, sacch, False)),
+                         ("TCH_D", 5, False, "DL", first(0, oth, False)), ("TCH_D", 5, False, "UL", first(2, oth, False))]
+            else:
+                comps = [("NB_DL", 0, False, "DL", first(0, lchan, True)), ("NB_DL+SACCH", 0, True, "DL", first(0, sacch, True))]
+                if mode == "block":
+                    comps += [("NB_UL", 1, False, "UL", first(2, lchan, True)), ("NB_UL+SACCH", 1, True, "UL", first(2, sacch, True))]
+                else:
+                    comps += [("NB_UL", 1, False, "UL", frozenset()), ("NB_UL+SACCH", 1, True, "UL", frozenset())]
+            for what, kind, sc, d, res in comps:
+                f = fired.get((t, kind, sc), frozenset())
+                bad = None
+                for cur in range(ncur):
+                    if (cur in f) != (((cur + ahead) % per) in res):
+                        bad = cur
+                        break
+                n += ncur
+                if bad is not None:
+                    fn = bad + ahead
+                    row = fr[fn % per]
+                    ctx.oracle_fail(
+                        "firmware %s %s at current frame %d (on air in frame %d) but trxcon layout %d (%s, tn %d) frame %d is %s"
+                        % (task, "starts " + what if bad in f else "does not start " + what, bad, fn, li, cfg, tn, fn % per, list(row)),
+                        dict(row=ri, task=task, config=cfg, tn=tn, cur=bad, fn=fn, layout=li, frame=fn % per, dir=d, item=what,
+                             lchan=lchan, sacch=sacch, firmware_fires=bad in f, trxcon_row=list(row)),
+                        key="c11-%s:%s:%s:%s:%s" % ("tch-frame" if mode == "tch" else "block-start", task, cfg, d, what))
+        # every row of the task's table is accounted for
+        allowed = {"block": {(0, 0), (1, 0), (0, SACCH), (1, SACCH)}, "block-dl": {(0, 0)}, "tch": {(3, 0), (4, SACCH), (5, 0)}}[mode]
+        for k, it in enumerate(fw["sets"][t] or []):
+            if (it[0], it[3]) not in allowed:
+                ctx.oracle_fail("firmware %s row %d has kind %s flags %d, not covered by the comparison" % (task, k, K_NAMES.get(it[0], it[0]), it[3]),
+                                dict(task=task, row=k, item=list(it)), key="c11-row-kind:%s:%d" % (task, k))
+        # both stacks report the same channel number
+        desc = tx["desc"]
+        for tn in range(8):
+            exp = desc[E[lchan]][0] | tn
+            if fw["chnr"][t][tn] != exp or desc[E[lchan]][1] != 0 or (sacch and (desc[E[sacch]][0] != desc[E[lchan]][0] or desc[E[sacch]][1] != tx["lid_sacch"])):
+                ctx.oracle_fail("channel numbers of %s and %s differ" % (task, lchan), dict(task=task, lchan=lchan, tn=tn, fw=fw["chnr"][t][tn], trxcon=exp),
+                                key="c11-chan-nr:%s:%s" % (task, lchan))
+                break
+    return n
+
+
+# ------------------------------------------------------------------ run
+
+def fn_points(rng, n):
+    pts = set()
+    for base in (0, 13, 26, 51, 102, 104, 1326, CYCLE, HYPER, 1 << 32):
+        for k in range(-4, 5):
+            for mult in (1, 2, 3, 255, 256):
+                v = base * mult + k
+                if 0 <= v < (1 << 32):
+                    pts.add(v)
+    out = sorted(pts)
+    for _ in range(n):
+        out.append(rng.below(HYPER) if rng.chance(3, 4) else rng.below(1 << 32))
+    return out
+
+
+def run(ctx):
+    bins, fw, tx = gen(ctx)
+    proved = ctx.prove()
+    if ctx.tier == "thorough":
+        ctx.coqchk()
+    rng = ctx.rng
+    thorough = ctx.tier == "thorough"
+    E = tx["enum"]
+    tasks = [t for t in range(fw["const"]["NTASKS"]) if fw["sets"][t] is not None]
+    tname = {v: k for k, v in fw["tasks"].items()}
+
+    # ---- (1) firmware: the real mframe_schedule() for every task x every current frame of the 51*26*8 cycle (+ boundaries, task sets)
+    pairs = [(1 << t, cur) for t in tasks for cur in range(CYCLE)]
+    nfull = len(pairs)
+    extra = fn_points(rng, 300 if not thorough else 5000)
+    for cur in extra:
+        pairs.append((1 << rng.choice(tasks), cur))
+    valid_mask = sum(1 << t for t in tasks)
+    for _ in range(2000 if not thorough else 60000):
+        if rng.chance(1, 2):
+            m = rng.u64() & valid_mask
+        else:
+            m = 0
+            for _ in range(rng.range(0, 4)):
+                m |= 1 << rng.choice(tasks)
+        pairs.append((m, rng.choice(extra) if rng.chance(1, 3) else rng.below(HYPER)))
+    pairs.append((0, 0))
+    pairs.append((valid_mask, 2715646))
+    rc, err, calls = real_fw_calls(bins, pairs)
+    if calls is None:
+        ctx.oracle_fail("c11_fw_run crashed (sanitizer?) rc=%s" % rc, err[-2000:], key="c11-fw-harness-crash")
+    else:
+        idx = list(range(len(pairs)))
+        ctx.correspond("mframe_schedule", "Mframe", idx, lambda k: "w_c11_fw_sched %d %d" % pairs[k],
+                       lambda k: [len(calls[k])] + [x for c in calls[k] for x in c], show=lambda k: dict(tasks_mask=pairs[k][0], fn=pairs[k][1]))
+        fired = {}
+        for k in range(nfull):
+            m, cur = pairs[k]
+            t = m.bit_length() - 1
+            for (off, kind, p3) in calls[k]:
+                key = (t, kind, bool((p3 >> 8) & fw["const"]["MF_F_SACCH"]))
+                fired.setdefault(key, set()).add(cur)
+                if (off != 1 or (p3 & 0xff) != t) and ("args", t) not in fired:
+                    fired[("args", t)] = True
+                    ctx.oracle_fail("tdma_schedule_set called with frame_offset %d, p3 %d for task %d" % (off, p3, t), dict(task=t, cur=cur, call=[off, kind, p3]), key="c11-call-args:task%d" % t)
+            ctx.nontrivial(("fw", t, tuple((c[1], c[2] >> 8) for c in calls[k])))
+        for k in range(nfull, len(pairs)):
+            ctx.nontrivial(("fwset", bin(pairs[k][0]).count("1") > 1, min(len(calls[k]), 3), pairs[k][1] >= HYPER - 2, pairs[k][1] >= (1 << 32) - 2))
+        for k in (0, nfull // 3, nfull - 1, nfull + 5, len(pairs) - 1):
+            ctx.sample(dict(op="mframe_schedule", tasks_mask=pairs[k][0], fn=pairs[k][1], calls=calls[k][:6]))
+        # ---- (4) the property on the implementation's observations
+        n = oracle_rows(ctx, fw, tx, fired, CYCLE)
+        ctx.evaluations += n
+        ctx.count("oracle:row-frame comparisons", n)
+        ctx.exhaustive = True
+    n = oracle_tables(ctx, fw, tx)
+    ctx.evaluations += n
+    ctx.count("oracle:table entries", n)
+
+    # ---- (2) trxcon frame lookup: layouts[i].frames[fn % period]
+    nl = len(tx["layouts"])
+    fp = []
+    for li in range(nl):
+        per = max(tx["layouts"][li]["period"], 1)
+        for fn in range(0, 2 * per + 3):
+            fp.append((li, fn))
+        for fn in extra[:: (1 if thorough else 4)]:
+            fp.append((li, fn))
+    for li in (nl, nl + 1, 255):
+        fp.append((li, rng.below(HYPER)))
+    rc, err, fres = real_trx(bins, "frames", fp)
+    if fres is None:
+        ctx.oracle_fail("c11_trxcon_dump frames crashed (sanitizer?) rc=%s" % rc, err[-2000:], key="c11-trxcon-harness-crash")
+    else:
+        idx = list(range(len(fp)))
+        ctx.correspond("frame-lookup", "Mframe", idx, lambda k: "w_c11_trx_frame %d %d" % fp[k], lambda k: fres[k],
+                       show=lambda k: dict(layout=fp[k][0], fn=fp[k][1]))
+        for k in idx:
+            li, fn = fp[k]
+            r = fres[k]
+            ctx.nontrivial(("frame", li, tuple(r)))
+            if li < nl and tx["layouts"][li]["cfg"] != tx["pchan"]["GSM_PCHAN_NONE"]:
+                L = tx["layouts"][li]
+                if len(r) != 4 or (L["period"] > 0 and L["period"] <= len(L["frames"]) and tuple(r) != L["frames"][fn % L["period"]]):
+                    ctx.oracle_fail("frames[fn % period] differs from the dumped row", dict(layout=li, fn=fn, got=r), key="c11-frame-lookup:layout%d" % li)
+        ctx.sample(dict(op="frames[fn % period]", layout=fp[7][0], fn=fp[7][1], row=fres[7]))
+
+    # ---- (3) l1sched_mframe_layout(config, tn)
+    lp = [(c, tn) for c in range(128) for tn in range(8)]
+    lp += [(c, tn) for c in (128, 200, 255, 1000) for tn in range(8)] + [(c, tn) for c in tx["pchan"].values() for tn in range(8, 16)]
+    rc, err, lres = real_trx(bins, "lookup", lp)
+    if lres is None:
+        ctx.oracle_fail("c11_trxcon_dump lookup crashed rc=%s" % rc, err[-2000:], key="c11-trxcon-harness-crash")
+    else:
+        idx = list(range(len(lp)))
+        ctx.correspond("layout-lookup", "Mframe", idx, lambda k: "w_c11_trx_layout %d %d" % lp[k], lambda k: lres[k],
+                       show=lambda k: dict(config=lp[k][0], tn=lp[k][1]))
+        for k in idx:
+            ctx.nontrivial(("lookup", lres[k][0], lp[k][1] >= 8))
+        ctx.sample(dict(op="l1sched_mframe_layout", config=lp[3 * 8 + 5][0], tn=lp[3 * 8 + 5][1], layout=lres[3 * 8 + 5]))
+
+    # ---- the oracle's copy of the specification table is the model's table
+    rows = spec_rows()
+    try:
+        mrows = ctx.model("Mframe", ["w_c11_row %d" % i for i in range(len(rows) + 1)])
+        exp = [[fw["tasks"][r[0]], tx["pchan"][r[1]], {"all": 0, "even": 1, "odd": 2}[r[2]], {"block": 0, "block-dl": 1, "tch": 2}[r[3]],
+                E[r[4]], E[r[5]] if r[5] else -1] for r in rows] + [[]]
+        if mrows != exp:
+            k = next(i for i in range(len(exp)) if mrows[i] != exp[i])
+            ctx.corr_failures.append(dict(name="spec-table", case=dict(row=k), model=mrows[k], impl=exp[k]))
+        ctx.count("corr:spec-table rows", len(rows))
+    except common.ModelUnavailable:
+        pass
+
+    # ---- model-side failing-input search when an obligation no longer checks
+    if not proved:
+        try:
+            r = ctx.model("Mframe", ["w_c11_find_bad 0"])[0]
+            if r:
+                rows = spec_rows()
+                ctx.note("model-side search: first (row, tn, cur) breaking the agreement: row %d %s, tn %d, cur %d" % (
+                    r[0], rows[r[0]][:2] if r[0] < len(rows) else "?", r[1], r[2]))
+                ctx.extra["model_find_bad"] = r
+            else:
+                ctx.note("model-side search: block-start / frame-by-frame agreement holds on the regenerated tables (another obligation broke)")
+        except Exception as e:  # noqa
+            ctx.note("model-side search unavailable: %r" % (e,))
+    ctx.extra["tables"] = dict(fw_rows=sum(len(s) for s in fw["sets"].values() if s), fw_tasks=len(tasks), trxcon_layouts=nl,
+                               trxcon_frame_rows=sum(len(l["frames"]) for l in tx["layouts"]), spec_rows=len(spec_rows()))
+    ctx.extra["rule"] = ("exhaustive: real mframe_schedule() for each of the %d non-NULL tasks x every current frame 0..10607, compared with the extracted model and "
+                         "(oracle) with the real layouts[] rows; plus frame numbers +-4 around multiples of 13/26/51/102/104/1326/10608, the hyperframe end and 2^32, "
+                         "random task sets; frames[fn %% period] for every layout over two periods + boundaries; l1sched_mframe_layout for all 128x8 pairs + out-of-range. "
+                         "distinct_nontrivial = distinct (task, set of kinds/flags fired), (layout, frame row), (lookup result) classes" % len(tasks))
